@@ -31,7 +31,7 @@ import traceback
 from . import build, driver, findings
 
 VERIF = build.VERIF
-NCPU = min(16, os.cpu_count() or 4)
+NCPU = int(os.environ.get("VP_NCPU", min(16, os.cpu_count() or 4)))
 
 
 class Stream:
